@@ -15,6 +15,8 @@
                             pickers (C04 Model/Pick.v [lookup_rr]).
     Nothing of the imported models is copied or changed.  All Go panics are explicit.
 
+    Since /repo 290c777 weighTargets falls back to an even split when a computed weight is unusable
+    or no slot is used (C04's [route_ring] follows; the code before is [ring_unrepaired]).
     Since /repo c9fb527 addRoute compiles a host that is added for the first time (C05's [add_route]
     follows), so every host key of a built table is a valid glob and matchingHosts' MustCompile is
     unreachable for tables NewTable returns (Proofs/TableSwap.v: [build_keys_ok]).  The builder
@@ -128,46 +130,51 @@ Definition wt_f64 (w : wt) : f64 :=
 (** the FixedWeight vector of a route *)
 Definition fixed_of (r : route) : list f64 := map (fun t => wt_f64 (t_fw t)) (r_targets r).
 
-(** weighTargets of C04 on binary64, keeping the ring.  A probe loop that never ends (C04's
-    [Err diverges]) stops the update loop as surely as a panic and is reported as [Panic]. *)
+(** weighTargets of C04 on binary64 (route.go since 290c777: unusable weights or no slot at all fall
+    back to an even split), keeping the ring.  A probe loop that never ends (C04's [Err diverges])
+    stops the update loop as surely as a panic and is reported as [Panic]; C04 proves that neither
+    happens ([C04_binary64_never_panics]). *)
 Definition ring_faithful (order : list (nat * Z) -> list (nat * Z)) (fixed : list f64) : outcome ring :=
   match route_ring arithF order fixed with
   | Ok (_, r) => Ok r
   | _ => Panic
   end.
 
-(** slot counts of a FixedWeight vector (route.go:289-298) *)
-Definition counts_of (fixed : list f64) : list Z := map (slot_count arithF) (weigh arithF fixed).
-Definition zsum_counts (cs : list Z) : Z := fold_right Z.add 0%Z cs.
-Definition has_fixed (fixed : list f64) : bool := negb (Nat.eqb (n_fixed arithF fixed) 0).
+(** weighTargets BEFORE /repo 290c777 (C04's [route_ring_unrepaired]); refutation theorems only *)
+Definition ring_unrepaired (order : list (nat * Z) -> list (nat * Z)) (fixed : list f64) : outcome ring :=
+  match route_ring_unrepaired arithF order fixed with
+  | Ok (_, r) => Ok r
+  | _ => Panic
+  end.
 
-(** ---- named finding regions, as predicates on a FixedWeight vector ---- *)
+Definition zsum_counts (cs : list Z) : Z := fold_right Z.add 0%Z cs.
+
+(** ---- where the code before 290c777 crashed, as predicates on a FixedWeight vector (the slot
+         counts it computed, route.go:289-298 on [weigh_unrepaired]); documentation of the
+         repaired findings, no theorem about the current code mentions them ---- *)
+Definition counts_unrepaired (fixed : list f64) : list Z := map (slot_count arithF) (weigh_unrepaired arithF fixed).
+Definition has_fixed (fixed : list f64) : bool := negb (Nat.eqb (n_fixed arithF fixed) 0).
 (* F-C02-1 / F-C02-3: some slot count is negative (int(NaN), int(+Inf), int(x >= 2^63) = -2^63) *)
 Definition F_C02_negative_slots (fixed : list f64) : bool :=
-  has_fixed fixed && existsb (fun n => n <? 0)%Z (counts_of fixed).
+  has_fixed fixed && existsb (fun n => n <? 0)%Z (counts_unrepaired fixed).
 (* F-C02-2: fixed weights are present but nobody gets a slot: the ring is empty *)
 Definition F_C02_empty_ring (fixed : list f64) : bool :=
-  has_fixed fixed && forallb (fun n => 0 <=? n)%Z (counts_of fixed) && (zsum_counts (counts_of fixed) =? 0)%Z.
-(* more slots than make accepts (needs more than 3.5e9 targets on one route) *)
-Definition too_many_slots (fixed : list f64) : bool :=
-  has_fixed fixed && (2^45 <? zsum_counts (counts_of fixed))%Z.
-(** outside every region *)
-Definition fixed_ok (fixed : list f64) : bool :=
-  negb (F_C02_negative_slots fixed) && negb (F_C02_empty_ring fixed) && negb (too_many_slots fixed).
+  has_fixed fixed && forallb (fun n => 0 <=? n)%Z (counts_unrepaired fixed)
+  && (zsum_counts (counts_unrepaired fixed) =? 0)%Z.
 
 (** the same ring up to its content, without running the fill loop where C04's
     [ring_of_counts_spec] says what it produces (Proofs/TableSwap.v: [ring_fast_length]);
     evaluated by the correspondence check, where only the ring's length is observable *)
 Definition ring_fast (order : list (nat * Z) -> list (nat * Z)) (fixed : list f64) : outcome ring :=
-  if Nat.eqb (n_fixed arithF fixed) 0 then Ok (map Some (seq 0 (length fixed)))
-  else
-    let cs := counts_of fixed in
+  if uses_fill arithF fixed then
+    let cs := map (slot_count arithF) (weigh_unrepaired arithF fixed) in   (* = weigh here *)
     if forallb (fun n => 0 <=? n)%Z cs && (zsum_counts cs <=? 2^45)%Z
     then Ok (repeat (Some 0%nat) (Z.to_nat (zsum_counts cs)))
     else match ring_of_counts_scan (order (indexed cs)) cs with
          | Ok r => Ok r
          | _ => Panic
-         end.
+         end
+  else Ok (map Some (seq 0 (length fixed))).
 
 (** a route with its ring, a table of them *)
 Definition broute := (route * ring)%type.
